@@ -495,7 +495,11 @@ literal in range: the integer `d.mant`, exactly, when the literal is an integer 
 serde_json although integral: the sentence's "INT only from integers" does not say whether `1.0` is one; the code says
 it is not), `0.5`, the `u64` band `9223372036854775808 … 18446744073709551615`, anything longer, anything below
 `i64::MIN` — never a rounded, truncated or wrapped value. The literal `-0` also gives NULL (serde_json keeps it as the
-float `-0.0`), although `0` gives 0: reported as D72. -/
+float `-0.0`), although `0` gives 0: observation N1 of DESIGN.md section 0 — the sentence's clauses are one-directional
+("INT only from integers", "NULL when the JSON value has another type") and do not decide the literals whose VALUE is an
+integer within 64 bits but which are written `-0`, `1.0`, `1e2`; this theorem states what the code does with them
+(serde_json's classification), the property oracle of the harness accepts NULL or the INT of the same value there
+(`oracle-accepts-either:int-from-integral-literal`), and the correspondence check reports any change of behaviour. -/
 theorem int_column_from_literal {lex : List Char} {d : Dec} (h : NumD lex d) (n : JNum)
     (hn : JsonDoc.serdeNumber lex = some n) :
     convertFromJson .int (.num n) =
@@ -580,7 +584,12 @@ open JsonGrammar in
 the text `cs`, which the RFC 8259 parser reads as the tree `l` (`parseJsonL cs = some l`, i.e. `JsonTextD cs l.erase`:
 `JsonDoc.parseJsonL_grammar` / `_complete`), nested within serde_json's limit. Then
 * if some number literal of the text is out of the REAL range, the line is not JSON for sqlgrep and EVERY JSON column
-  of it has its DEFAULT (`1e400` anywhere in the line voids the whole line);
+  of it has its DEFAULT (`1e400` anywhere in the line voids the whole line — observation N2 of DESIGN.md section 0:
+  `{"x":1,"y":1e400}` is a JSON-text of RFC 8259 in which `.x` is the integer 1, yet column `x` is NULL / DEFAULT. Decided
+  reading of the sentence's "the line is not valid JSON": valid = accepted by the JSON parser the program uses, serde_json,
+  with its documented limits — every number a finite REAL, at most 127 nested containers (`recursion limit 128`); the
+  hypothesis `hdep` is the second limit, `nested_beyond_limit_line_is_default` its other side, `line_is_json_iff` the
+  whole reading in one statement);
 * otherwise a column whose path addresses a number literal `lex` of the text (denoting `dec`) holds
   `numberCell c.type lex dec`. -/
 theorem json_number_column_from_bytes (o : Oracles) (d : TableDef) (lo : LineOracle) (c : Column) (a : JsonAccess)
@@ -620,7 +629,11 @@ theorem json_number_column_from_bytes (o : Oracles) (d : TableDef) (lo : LineOra
         simp only [Option.getD_some, hv, hc, Bool.false_eq_true, if_false]
         exact number_cell c hD n hs
 
-/-- a line with a number literal out of range anywhere gives every JSON column its DEFAULT (corollary, spelled out) -/
+/-- a line with a number literal out of range anywhere gives every JSON column its DEFAULT (corollary, spelled out).
+Observation N2 (DESIGN.md section 0), not a finding: the text may well be a JSON-text of RFC 8259 in which this column's
+path addresses a perfectly good value (`{"x":1,"y":1e400}`); "the line is not valid JSON" of the sentence is read as
+"rejected by the JSON parser the program uses (serde_json) with its documented limits": a number must be a finite REAL
+(`number_literal_out_of_range_iff`: magnitude below `2^1024 − 2^970`), containers nest at most 127 deep. -/
 theorem out_of_range_literal_line_is_default (o : Oracles) (d : TableDef) (lo : LineOracle) (c : Column) (a : JsonAccess)
     (hj : d.anyJson = true) (hp : c.parsing = .json a)
     (cs : List Char) (l : JsonDoc.LVal) (hd : Utf8.decode lo.line = some cs) (hl : JsonDoc.parseJsonL cs = some l)
@@ -638,6 +651,54 @@ theorem out_of_range_literal_line_is_default (o : Oracles) (d : TableDef) (lo : 
     | last s => cases s <;> rfl
     | cons s inner => cases s <;> rfl
   rw [this]
+
+/-- **nested_beyond_limit_line_is_default (observation N2, the nesting limit).** A line whose text is a JSON-text of
+RFC 8259 (`parseJsonL cs = some l`) but nests more than 127 containers — arrays AND objects count, `LVal.depth` — is not
+JSON for sqlgrep (serde_json's `recursion limit 128`: `remaining_depth` starts at 128 and must stay positive), and every
+JSON column of it has its DEFAULT, also a column whose own path stays at the surface (`{"x":1,"y":[[[…128…]]]}`). -/
+theorem nested_beyond_limit_line_is_default (o : Oracles) (d : TableDef) (lo : LineOracle) (c : Column) (a : JsonAccess)
+    (hj : d.anyJson = true) (hp : c.parsing = .json a)
+    (cs : List Char) (l : JsonDoc.LVal) (hd : Utf8.decode lo.line = some cs) (hl : JsonDoc.parseJsonL cs = some l)
+    (hdeep : JsonDoc.maxDepth < l.depth) :
+    columnValue o c (ParsingInput.new d (JsonDoc.withDoc lo)) = applyTrim c c.defaultValue := by
+  have hnone : JsonDoc.docOfLine lo.line = none := by
+    unfold JsonDoc.docOfLine JsonDoc.docOfChars
+    rw [hd]; simp only; rw [hl]; simp only
+    rw [if_neg (by omega)]
+  rw [json_column_from_text_spec o d lo c a hj hp, hnone]
+  have : followPath a.steps (Option.getD none Json.null) = none := by
+    cases a with
+    | last s => cases s <;> rfl
+    | cons s inner => cases s <;> rfl
+  rw [this]
+
+/-- **line_is_json_iff (observation N2, the decided reading of "valid JSON").** A line is JSON for sqlgrep — has a
+document, `docOfLine` — exactly when its bytes are UTF-8, the text is a JSON-text of RFC 8259 (`parseJsonL`, sound and
+complete for `Spec/JsonGrammar.lean`), it nests at most 127 containers, and every number literal of it is in the REAL
+range (`serdeNumber lex ≠ none`; by `number_literal_out_of_range_iff`: magnitude below `2^1024 − 2^970`). The last two
+are serde_json's documented limits, not RFC 8259's: "valid JSON" in the sentence of C02 is read as "accepted by the JSON
+parser the program uses, with its documented limits". -/
+theorem line_is_json_iff (line : List Nat) :
+    (JsonDoc.docOfLine line).isSome = true ↔
+      ∃ cs l, Utf8.decode line = some cs ∧ JsonDoc.parseJsonL cs = some l ∧ l.depth ≤ JsonDoc.maxDepth ∧
+        ∀ lex ∈ l.lexemes, JsonDoc.serdeNumber lex ≠ none := by
+  constructor
+  · intro h
+    cases hj : JsonDoc.docOfLine line with
+    | none => rw [hj] at h; cases h
+    | some j =>
+      obtain ⟨cs, l, h1, h2, h3, h4⟩ := (JsonDoc.docOfLine_some_iff line j).1 hj
+      refine ⟨cs, l, h1, h2, h3, ?_⟩
+      intro lex hmem hnone
+      have := (JsonDoc.toJson_none_iff l).2 ⟨lex, hmem, hnone⟩
+      rw [this] at h4; cases h4
+  · rintro ⟨cs, l, h1, h2, h3, h4⟩
+    cases hjs : JsonDoc.toJson l with
+    | none =>
+      obtain ⟨lx, hlx, hnx⟩ := (JsonDoc.toJson_none_iff l).1 hjs
+      exact absurd hnx (h4 lx hlx)
+    | some j =>
+      rw [(JsonDoc.docOfLine_some_iff line j).2 ⟨cs, l, h1, h2, h3, hjs⟩]; rfl
 
 /-! ### non-vacuity -/
 
@@ -741,7 +802,7 @@ example : cellView (numberCell .int "-9223372036854775809".toList ⟨-9223372036
 example : cellView (numberCell .int "1.0".toList ⟨10, -1⟩) = some ("NULL", 0)
     ∧ cellView (numberCell .int "1e2".toList ⟨1, 2⟩) = some ("NULL", 0) := by decide +kernel
 example : cellView (numberCell .int "0".toList ⟨0, 0⟩) = some ("INT", 0)
-    ∧ cellView (numberCell .int "-0".toList ⟨0, 0⟩) = some ("NULL", 0) := by decide +kernel   -- D72
+    ∧ cellView (numberCell .int "-0".toList ⟨0, 0⟩) = some ("NULL", 0) := by decide +kernel   -- observation N1
 example : cellView (numberCell .real "-0".toList ⟨0, 0⟩) = some ("REAL", 0x8000000000000000)
     ∧ cellView (numberCell .real "-0.0".toList ⟨0, -1⟩) = some ("REAL", 0x8000000000000000)
     ∧ cellView (numberCell .real "0.0".toList ⟨0, -1⟩) = some ("REAL", 0) := by decide +kernel
@@ -780,6 +841,23 @@ example : ((docOfLine exLine3).bind (followPath [.field [97], .index 0])).bind J
   decide +kernel
 -- a literal out of range anywhere voids the line (`out_of_range_literal_line_is_default`)
 example : docOfLine ("{\"a\":1,\"b\":[2e308]}".toUTF8.toList.map (·.toNat)) = none := by decide +kernel
+
+/-- observation N2, the nesting limit: `{"x":1,"y":[[[…]]]}` with `k` arrays around nothing (total depth `k + 1`) and
+`{"x":1,"y":{"a":{"a":…null…}}}` with `k` objects -/
+def nestedArrays (k : Nat) : List Nat :=
+  "{\"x\":1,\"y\":".toUTF8.toList.map (·.toNat) ++ List.replicate k 91 ++ List.replicate k 93 ++ [125]
+def nestedObjects (k : Nat) : List Nat :=
+  "{\"x\":1,\"y\":".toUTF8.toList.map (·.toNat) ++ (List.replicate k [123, 34, 97, 34, 58]).flatten ++ [110, 117, 108, 108] ++
+    List.replicate k 125 ++ [125]
+
+-- total depth 127 (126 inner containers): a document, `.x` is the integer 1 …
+example : ((docOfLine (nestedArrays 126)).bind (followPath [.field [120]])).bind Json.asI64 = some 1 := by decide +kernel
+example : ((docOfLine (nestedObjects 126)).bind (followPath [.field [120]])).bind Json.asI64 = some 1 := by decide +kernel
+-- … total depth 128: RFC 8259 still derives the text (`parseJsonL`), serde_json's recursion limit rejects the line —
+-- arrays and objects alike (`nested_beyond_limit_line_is_default`)
+example : docOfLine (nestedArrays 127) = none ∧ docOfLine (nestedObjects 127) = none := by decide +kernel
+example : (match (Utf8.decode (nestedArrays 127)).bind parseJsonL with | some l => l.depth | none => 0) = 128
+    ∧ (match (Utf8.decode (nestedObjects 127)).bind parseJsonL with | some l => l.depth | none => 0) = 128 := by decide +kernel
 
 end literals
 
